@@ -326,6 +326,7 @@ type outcome struct {
 	aborted   string // harness abort (sentinel)
 	budgetHit bool
 	extra     []step // the calls made after exhaustion
+	bystander string // what went wrong in the runs started after exhaustion
 	polls     int
 	ticks     int
 	closedIn  int // index of the Next call during which the fault closed the channel (-1: not closed)
@@ -395,8 +396,65 @@ func run(d *Data, q *gojq.Query, code *gojq.Code, w *world, input any, vars []an
 		}
 		o.extra = append(o.extra, st)
 	}
+	// Runs started after this one has finished must neither revive it nor be disturbed by it.
+	by1, by2 := bystanders[0].code.Run(bystanders[0].in), bystanders[1].code.RunWithContext(context.Background(), bystanders[1].in)
+	var got1, got2 []string
+	step := func(it gojq.Iter, got *[]string) {
+		if v, ok := it.Next(); ok {
+			*got = append(*got, kernel.Enc(v))
+		} else {
+			*got = append(*got, "<end>")
+		}
+	}
+	step(by1, &got1)
+	step(by2, &got2)
+	for j := 0; j < 2; j++ {
+		v, ok := it.Next()
+		st := step0(v, ok)
+		o.extra = append(o.extra, st)
+		step(by1, &got1)
+		step(by2, &got2)
+	}
+	step(by1, &got1)
+	step(by2, &got2)
+	if g := strings.Join(got1, " "); g != bystanders[0].want {
+		o.bystander = fmt.Sprintf("a run of `%s` started after this run had finished emitted %s, alone it emits %s", bystanders[0].src, g, bystanders[0].want)
+	} else if g := strings.Join(got2, " "); g != bystanders[1].want {
+		o.bystander = fmt.Sprintf("a run of `%s` started after this run had finished emitted %s, alone it emits %s", bystanders[1].src, g, bystanders[1].want)
+	}
 	return
 }
+
+func step0(v any, ok bool) step {
+	st := step{Ok: ok}
+	if ok {
+		st.Val = kernel.Enc(v)
+	} else if v != nil {
+		st.Val = "nonnil:" + kernel.Enc(v)
+	}
+	return st
+}
+
+type bystander struct {
+	src  string
+	in   any
+	code *gojq.Code
+	want string
+}
+
+var bystanders = func() []bystander {
+	bs := []bystander{{src: "10, 11, 12", in: nil, want: "i10 i11 i12 <end>"}, {src: ".[] | [., 1]", in: []any{1, 2}, want: "[i1,i1] [i2,i1] <end> <end>"}}
+	for i := range bs {
+		q, err := gojq.Parse(bs[i].src)
+		if err != nil {
+			panic(err)
+		}
+		if bs[i].code, err = gojq.Compile(q); err != nil {
+			panic(err)
+		}
+	}
+	return bs
+}()
 
 // runBackground drains code.Run (no context) up to maxOut outputs.
 func runBackground(code *gojq.Code, input any, vars []any, maxOut int) (o outcome) {
@@ -592,8 +650,11 @@ func protocol(d *Data, o *outcome, what string) *kernel.Violation {
 	}
 	for j, st := range o.extra {
 		if st.Ok || st.Val != "" {
-			return viol(d, "not-terminal", "%s: after Next returned (nil,false), call %d returned ok=%v %s", what, j+1, st.Ok, kernel.Short(st.Val))
+			return viol(d, "not-terminal", "%s: after Next returned (nil,false), call %d returned ok=%v %s (calls 4 and 5 are made after two other runs have been started and advanced)", what, j+1, st.Ok, kernel.Short(st.Val))
 		}
+	}
+	if o.bystander != "" {
+		return viol(d, "bystander-disturbed", "%s: %s", what, o.bystander)
 	}
 	return nil
 }
